@@ -56,6 +56,10 @@ FIRST = {
     'a09-C18': 'missed -> new rule T8 (field listings read the class, never the instance)',
     'a08-C13': 'missed -> D2 reads-the-callers-namespace (every mode read names the namespace parameter; the recorded flag is that read alone)',
     'a04-C05': 'missed -> W2 node-function-on-every-path (per kind, no way round the f_node call)',
+    'b01-C04': 'caught', 'b02-C07': 'caught', 'b03-C08': 'caught', 'b05-C12': 'caught', 'b07-C15': 'caught',
+    'b08-C16': 'caught', 'b09-C17': 'caught', 'b10-C19': 'caught',
+    'b04-C11': 'missed -> S1 one-state-per-node (one per-node tuple constructor, stored on every path through the loop, never from a memo shared between nodes)',
+    'b06-C14': 'missed by C14 (P1 reported it under C05/C07/C09) -> new rules A6 (computed-key reads of a caller mapping only after a key-set check) and A7 (in-place mutation only of containers the call created)',
     'z07-C15': 'analysis error in C13 only (restore moved into a local helper) -> D1 looks through the helper, the statement CFG lets exceptions no handler matches escape `except Exception`, D1 added to C15',
 }
 
